@@ -5,7 +5,11 @@ import concurrent.futures, json, os, re, time
 from kv import *
 import kv, cfgdesc
 
-CAPS = {"queue": 4, "states": 4, "extra": 2, "actionq": 2, "oneshot": 2, "seqs": 2, "stack": 2, "since": 3, "hist": 0}
+CAPS = {"queue": 4, "states": 4, "extra": 2, "actionq": 2, "oneshot": 2, "seqs": 2, "stack": 3, "since": 3, "hist": 0}
+
+# model mutant (Bug) -> prefix of the panic sites it brings back
+REPAIRED_SITES = {"c02_layer_collect": "heapless:layer_stack", "c02_repeat_reentrant": "stack-overflow:repeat",
+                  "c02_wdelay_unchecked": "add-overflow:waiting.delay+ticks"}
 
 MC_ARB = r'''---- MODULE %(mod)s ----
 EXTENDS Kanata, Json
@@ -46,16 +50,16 @@ def instances(tier):
     I = [
         {"name": "layers", "depth": (6, 8), "keys": ["a", "b", "c"], "qkeys": ["a", "c"], "kinds": ["d", "u", "p"],
          "kbd": "(defsrc a b c)\n(deflayer l0 %s)\n(deflayer l1 %s)\n(deflayer l2 %s)\n" % (row, row, row),
-         "caps": {}, "scaled": {"rep": 5}},
+         "caps": {}, "scaled": {"rep": 4}, "bug": "c02_layer_collect"},
         {"name": "index_rpt", "depth": (5, 9), "keys": ["a", "b", "c", "d"], "kinds": ["d", "u"],
          "kbd": "(defsrc a b c d)\n(deflayer l0 (tap-dance 2 ()) (tap-dance-eager 2 ()) (multi rpt-any) (fork rpt-any x (lsft)))\n",
          "alt_kbd": ["(defsrc a b c d)\n(deflayer l0 (tap-dance 2 (x)) (tap-dance-eager 2 (x)) (multi rpt-any) (fork rpt-any x (lsft)))\n"],
-         "caps": {}},
+         "caps": {}, "bug": "c02_repeat_reentrant"},
         # u16 scaled to 7 and the timeouts to 4, so that only a press held back for a whole timeout (not the one or two
         # ticks every event spends in the queue) overflows `delay + ticks`: the witnesses stay witnesses at the real scale
         {"name": "wdelay", "depth": (11, 11), "keys": ["a", "b"], "qkeys": ["a"], "kinds": ["d", "u"],
          "kbd": "(defcfg rapid-event-delay 4)\n(defsrc a b c)\n(deflayer l0 (tap-hold 0 4 x y) (tap-hold 0 4 z w) (one-shot 4 lsft))\n",
-         "caps": {"u16max": 7, "since": 7},
+         "caps": {"u16max": 7, "since": 7}, "bug": "c02_wdelay_unchecked",
          "scaled": {"tick": 9363,
                     "kbd": "(defcfg rapid-event-delay 37452)\n(defsrc a b c)\n(deflayer l0 (tap-hold 0 37452 x y) (tap-hold 0 37452 z w) (one-shot 37452 lsft))\n"}},
         {"name": "wrapping", "depth": (5, 7), "keys": ["a", "b", "c"], "kinds": ["d", "u", "p"],
@@ -72,10 +76,10 @@ def instances(tier):
     if tier != "quick":
         I.append({"name": "chords_td", "depth": (6, 8), "keys": ["a", "b", "c"], "kinds": ["d", "u", "p"],
                   "kbd": "(defsrc a b c)\n(defchords cg 2 (a) x (b) y (a b) z)\n(deflayer l0 (chord cg a) (chord cg b) (tap-dance 2 (x y)))\n",
-                  "caps": {"u16max": 3}})
+                  "caps": {"u16max": 3}, "bug": "c02_wdelay_unchecked"})
         I.append({"name": "switch_layers", "depth": (6, 8), "keys": ["a", "b", "c"], "kinds": ["d", "u"],
                   "kbd": "(defsrc a b c)\n(deflayer l0 (layer-while-held l1) (switch (a) x break () (layer-while-held l1) fallthrough) (macro-repeat x))\n"
-                         "(deflayer l1 _ _ (layer-while-held l1))\n", "caps": {"hist": 1}})
+                         "(deflayer l1 _ _ (layer-while-held l1))\n", "caps": {"hist": 1}, "bug": "c02_layer_collect"})
     # cheapest first: the time budget of the tier is spent in this order
     order = ["chv2_flood", "switch_layers", "chords_td", "wrapping", "index_rpt", "layers", "wdelay"]
     I.sort(key=lambda i: order.index(i["name"]) if i["name"] in order else len(order))
@@ -105,7 +109,9 @@ def check_arb(inst, wd, workers, timeout, depth):
     caps = dict(CAPS)
     caps.update(inst.get("caps", {}))
     consts, c = gen_constants(dump, None, caps, track_hist=caps.get("hist", 0) > 0)
-    consts += "\nBugDef == " + tla_val("none")
+    # "bug": the instance explores L1 with one repaired defect put back (model mutant behind `Bug`), so that TLC still
+    # produces a shortest history to the formerly panicking site; the real code must process it to completion
+    consts += "\nBugDef == " + tla_val(inst.get("bug", "none"))
     mod = "MC_c02cap_" + inst["name"]
     text = MC_ARB % dict(mod=mod, consts=consts, keys="{" + ", ".join(str(k) for k in codes) + "}",
                          kinds="{" + ", ".join('"%s"' % k for k in inst["kinds"]) + "}", depth=depth)
@@ -210,16 +216,41 @@ def capacity_submodel(tier, seed, wd, acc, run_all, mkjob, notes):
                 if r["r"] not in ("ok", "reject") and not e["reproduced"]:
                     e["reproduced"] = True
                     e["model_history"] = h
+    # sites that exist in L1 only behind the instance's model mutant are repaired defects: their witnesses are
+    # regression histories which the real code must process to completion (a crash there is recorded like any other)
+    bug_of = {i["name"]: i.get("bug") for i in insts}
+    for e in rep.values():
+        b = bug_of.get(e["instance"])
+        e["repaired_defect"] = b if b and e["site"].startswith(REPAIRED_SITES.get(b, "\0")) else None
     out["sites_in_model"] = rep
     out["sites_found"] = len(rep)
     out["sites_reproduced_on_code"] = sum(1 for e in rep.values() if e["reproduced"])
+    out["regression_sites_processed_to_completion"] = sum(1 for e in rep.values() if e["repaired_defect"] and not e["reproduced"])
     for k, e in rep.items():
-        if not e["reproduced"]:
-            notes.append("capacity sub-model: panic site %s is reachable in the design (instance %s, history %s) but the scaled "
-                         "witness did not crash the real code (model-only, not a violation)" % (e["site"], e["instance"], e["model_history"]))
+        if not e["reproduced"] and not e["repaired_defect"]:
+            notes.append("capacity sub-model: panic site %s is reachable in the design (instance %s, history %s) but none of its %d "
+                         "witnesses, scaled to the real capacities, crashed the real code (model-only, not a violation)"
+                         % (e["site"], e["instance"], e["model_history"], e["witnesses"]))
     out["wall_s"] = round(time.time() - t0, 1)
     log("[c02] capacity sub-model: %d states, sites %s (%.1fs)" % (out["states"], sorted(set(e["site"] for e in rep.values())), time.time() - t0))
     return out
+
+
+def repaired_conformance(tier, wd, notes):
+    """binding B for the L1 arm rewritten after fix 5f7376a (Repeat takes rpt_action before the call): TLC explores a
+    small instance whose actions contain rpt-any inside the action it repeats (physically consistent environment of
+    tools/mc.py) and every edge is replayed on the real code.  Drift is a model problem: noted, never a violation."""
+    import mc
+    inst = {"name": "c02_repeat", "keys": [cfgdesc.code(k) for k in "abc"], "qmax": 2 if tier == "quick" else 3,
+            "kbd": "(defsrc a b c)\n(deflayer l0 (multi rpt-any) x (fork (multi lctl rpt-any) rpt-any (x)))\n"}
+    try:
+        r = mc.check_instance(inst, wd, workers=8, timeout=240)
+    except ToolError as e:
+        notes.append("conformance instance c02_repeat not completed: %s" % str(e)[:200])
+        return {"name": inst["name"], "completed": False}
+    if r.get("drift"):
+        notes.append("model drift on instance c02_repeat: %d of %d edges (L1 Repeat arm vs the code)" % (r["drift"], r.get("replayed", 0)))
+    return {k: r.get(k) for k in ("name", "states", "generated", "edges", "replayed", "drift", "n_panic", "tlc_wall_s", "wall_s")} | {"completed": True}
 
 
 # ------------------------------------------------------------------ contract table
